@@ -11,6 +11,21 @@ COMMON_NOTE = ("Trusted base: Coq 8.16.1 kernel + vm_compute (no native_compute,
                "modelled, not verified. ")
 
 CLAIMED = {
+ "C10": dict(
+  text="Theorems about a hand model of the bookkeeping soprano owns around the NMR array properties, written over the sort REGENERATED from "
+       "soprano/nmr/utils.py: the isotope precedence chain (list entry > dictionary entry > quadrupolar default when requested and tabulated > default) "
+       "for every presence/absence combination; references/gradients as dictionary, expanded list, float or constant list address the same atoms, wrong-length "
+       "lists are refused; the shift formula's laws; over the reals, for every traceless spectrum the array route's Vzz (last Haeberlen-sorted value) and the "
+       "object route's (last NQR-sorted value) have the same magnitude and are equal whenever the magnitudes are distinct; the m values of the NQR lines. "
+       "Tied to the code by correspondence (_get_isotope_list, reference resolution) and by an agreement oracle on random structures cycling through every "
+       "element of nmrdata.json: every array property (isotropy, shift, anisotropies, asymmetry, span, skew, Vzz, Cq, Pq, NQR lines) against the attribute of "
+       "that atom's tensor object and against the documented formula evaluated independently, isotope options in every combination, ref/grad as "
+       "float/dict/list, force_recalc after overwriting the arrays.",
+  note="The agreement of the two routes is decided numerically (1e-9) on sampled structures, not proved (eigh is an oracle); the CLI summary tables are not "
+       "exercised. Known findings C10-F10b (four default isotopes without data in nmrdata.json). F-10 (MSTensor with a per-site reference list) found by this "
+       "check and repaired.",
+  technique="Coq proof (case analysis; Reals lra over the generated sorts) of a hand model + differential correspondence + agreement oracle (array route vs object route vs formula)",
+  design="§8 C10"),
  "C13": dict(
   text="Axiom-free theorems over Z about a hand model of TriAvg.get_orient_points and ZCW._calc_engine, for EVERY N: the index triples of the two "
        "comprehensions are exactly the unit cells of the octahedron-face lattice (z_i(z) = z(2N+3-z)/2 proved to be the row offset), every vertex index is "
